@@ -845,22 +845,78 @@ Lemma copy_datagram_behind_server peeked accepted d reply more : local_kind acce
   copy_model (server_wrap peeked accepted) [d] (reply :: more) = mkRaw 1 [d ++ []] [reply] 1.
 Proof. intros H. unfold copy_model. rewrite switch_behind_server. unfold type_switch. rewrite H. reflexivity. Qed.
 
-(* dns-proxy, datagram that is a DNS message: relayed, answered, recorded *)
-Lemma dns_datagram_behind_server peeked accepted d reply more got : local_kind accepted = AUdp ->
-  dns_model (server_wrap peeked accepted) [d] true (reply :: more) got = mkRaw 1 [d ++ []] [reply] 1.
+(* dns-proxy, datagram: forwarded, answered, recorded - whether or not it is a DNS message *)
+Lemma dns_datagram_behind_server peeked accepted d parses reply more : local_kind accepted = AUdp ->
+  dns_model (server_wrap peeked accepted) [d] parses (reply :: more) = mkRaw 1 [d ++ []] [reply] 1.
 Proof. intros H. unfold dns_model. rewrite switch_behind_server. unfold type_switch. rewrite H. reflexivity. Qed.
 
-(* what remains: a datagram that is not a DNS message is forwarded but neither recorded nor answered *)
-Lemma dns_datagram_not_dns peeked accepted d reply got : local_kind accepted = AUdp ->
-  dns_model (server_wrap peeked accepted) [d] false reply got = mkRaw 1 [d ++ []] [] 0.
-Proof. intros H. unfold dns_model. rewrite switch_behind_server. unfold type_switch. rewrite H. reflexivity. Qed.
+(* io.ReadFull over any segmentation: the first n bytes of the stream, the rest stays *)
+Lemma take_concat segs : forall n, (n <= length (concat segs))%nat ->
+  exists rest, take segs n = Some (firstn n (concat segs), rest) /\ concat rest = skipn n (concat segs).
+Proof.
+  induction segs as [|s r IH]; intros n Hn.
+  - cbn [concat length] in Hn. assert (n = 0%nat) by lia. subst n. exists []. split; reflexivity.
+  - destruct n as [|n']; [exists (s :: r); split; reflexivity|].
+    cbn [take concat]. cbn [concat] in Hn. rewrite app_length in Hn.
+    destruct (length s <? S n')%nat eqn:E.
+    + apply Nat.ltb_lt in E.
+      destruct (IH (S n' - length s)%nat ltac:(lia)) as (rest & Ht & Hc).
+      rewrite Ht. exists rest. split.
+      * f_equal. f_equal. rewrite firstn_app, (firstn_all2 s) by lia. reflexivity.
+      * rewrite Hc, skipn_app, (skipn_all2 s) by lia. reflexivity.
+    + apply Nat.ltb_ge in E.
+      exists (match skipn (S n') s with [] => r | t => t :: r end). split.
+      * f_equal. f_equal. rewrite firstn_app. replace (S n' - length s)%nat with 0%nat by lia.
+        rewrite firstn_O, app_nil_r. reflexivity.
+      * rewrite skipn_app. replace (S n' - length s)%nat with 0%nat by lia. rewrite skipn_O.
+        destruct (skipn (S n') s); reflexivity.
+Qed.
 
-(* what remains: over a stream dns-proxy does ONE Read each way: of a query written in
-   several pieces only the first reaches the backend (if it parses at all) *)
-Lemma dns_stream_single_read peeked accepted q more reply got : local_kind accepted = ATcp ->
-  dns_model (server_wrap peeked accepted) (q :: more) true reply got = mkRaw 1 [q] [firstn got (concat reply)] 1 /\
-  dns_model (server_wrap peeked accepted) (q :: more) false reply got = raw_nothing.
-Proof. intros H. unfold dns_model. rewrite switch_behind_server. unfold type_switch. rewrite H. split; reflexivity. Qed.
+Lemma pfx_value n : N.to_nat (N.of_nat (n / 256) * 256 + N.of_nat (n mod 256)) = n.
+Proof.
+  rewrite N2Nat.inj_add, N2Nat.inj_mul, !Nat2N.id. change (N.to_nat 256) with 256%nat.
+  pose proof (Nat.div_mod n 256 ltac:(lia)). lia.
+Qed.
+
+(* readMsg: a length-framed message is read whole, however the stream is cut, and what
+   follows it stays *)
+Lemma read_msg_framed segs q x :
+  concat segs = pfx (length q) ++ q ++ x ->
+  exists rest, read_msg segs = Some (q, rest) /\ concat rest = x.
+Proof.
+  intros H. unfold read_msg.
+  destruct (take_concat segs 2) as (r1 & Ht & Hc).
+  { rewrite H. unfold pfx. cbn [app length]. lia. }
+  rewrite Ht, H. unfold pfx. cbn [app firstn]. rewrite H in Hc. unfold pfx in Hc. cbn [app skipn] in Hc.
+  rewrite pfx_value.
+  destruct (take_concat r1 (length q)) as (r2 & Ht2 & Hc2).
+  { rewrite Hc, app_length. lia. }
+  rewrite Ht2, Hc. exists r2. split.
+  - rewrite firstn_app, firstn_all, Nat.sub_diag. cbn [firstn]. rewrite app_nil_r. reflexivity.
+  - rewrite Hc2, Hc, skipn_app, skipn_all, Nat.sub_diag. reflexivity.
+Qed.
+
+(* dns-proxy over a stream behind the server: for ALL segmentations of a length-framed DNS
+   query and of the length-framed answer, the backend receives the framed query, the client
+   the framed answer; one backend connection, one event *)
+Lemma dns_stream_behind_server peeked accepted csegs bsegs q a x y : local_kind accepted = ATcp ->
+  (N.of_nat (length q) < 65536)%N -> (N.of_nat (length a) < 65536)%N ->
+  concat csegs = pfx (length q) ++ q ++ x -> concat bsegs = pfx (length a) ++ a ++ y ->
+  dns_model (server_wrap peeked accepted) csegs true bsegs =
+  mkRaw 1 [pfx (length q) ++ q] [pfx (length a) ++ a] 1.
+Proof.
+  intros H _ _ Hq Ha. unfold dns_model. rewrite switch_behind_server. unfold type_switch. rewrite H.
+  destruct (read_msg_framed _ _ _ Hq) as (r1 & -> & _).
+  destruct (read_msg_framed _ _ _ Ha) as (r2 & -> & _). reflexivity.
+Qed.
+
+(* a framed message that is not DNS, or a stream that ends before the message is complete: nothing is dialled *)
+Lemma dns_stream_rejects peeked accepted csegs bsegs : local_kind accepted = ATcp ->
+  dns_model (server_wrap peeked accepted) csegs false bsegs = raw_nothing.
+Proof.
+  intros H. unfold dns_model. rewrite switch_behind_server. unfold type_switch. rewrite H.
+  destruct (read_msg csegs) as [[q r]|]; reflexivity.
+Qed.
 
 Lemma other_address_nothing peeked a segs reply : a = AOtherAddr ->
   copy_model (server_wrap peeked (KOther a)) segs reply = raw_nothing.
